@@ -11,13 +11,22 @@ Granularity (one scheduled step = one file-system operation of one goroutine):
   it performs no further file operation.
 * ADD   (`addNewSnapshot`): one atomic `O_APPEND` write `f := f ++ [(s,v)]`.  If `addLocked` it
   is enabled only when nobody holds the write lock; if not, it is ALWAYS enabled - also while
-  another goroutine sits between `upd1` and `upd2`.
-* UPDATE (`updateSnapshot`, `Lock`): two steps.  `upd1` acquires W (if `updLocked`; enabled only
-  when W is free) and copies the whole file into memory (`snap := f`); `upd2` truncates and
-  writes back `setVal snap s v` and releases W.
+  another goroutine is inside `updateSnapshot`.
+* UPDATE (`updateSnapshot`, `Lock`): THREE steps.
+  `upd1`  acquires W (if `updLocked`; enabled only when W is free) and copies the whole file into
+          memory (`snap := f`);
+  `upd2a` is `overwriteFile`'s `f.Truncate(0)`: `file := []` (W still held);
+  `upd2b` is `overwriteFile`'s `f.Write(b)`: `file := setVal snap s v`, then W is released.
+
+So a call takes 1 step (passed / failed), 2 steps (added) or 4 steps (updated).
 
 A schedule is a `List Nat` of thread indices.  Scheduling a thread which is blocked on the lock,
 has finished, or does not exist is a stutter, so every list is a schedule.
+
+The step function is generic in the representation `F` of the file and a record `FileOps` of the
+four file operations, so that the same protocol runs on the abstract file `File κ ν`
+(`absOps`, this file) and on bytes (`GoSnaps/Props/C06Refine.lean`).  Slots and values are
+arbitrary types with decidable equality; the examples use `Nat`.
 
 Everything here is executable (`runSchedule`); the proofs live in `Lemmas/Conc.lean`, the theorem
 statements in `Props/C06.lean`.
@@ -26,23 +35,16 @@ import GoSnaps.Generated.Structural
 
 namespace GoSnaps.Conc
 
+/-- slots / values of the `Nat` examples and of the replay harness -/
 abbrev Slot := Nat
 abbrev Val := Nat
-/-- the snapshot file: entries in file order -/
-abbrev File := List (Slot × Val)
 
-/-- first entry with this slot (what `getPrevSnapshot`'s scan returns) -/
-def lookup : File → Slot → Option Val
-  | [], _ => none
-  | (s', v) :: f, s => if s' = s then some v else lookup f s
+/-- the abstract snapshot file: entries in file order -/
+abbrev File (κ ν : Type) := List (κ × ν)
 
-/-- `updateSnapshot`'s rewrite of an in-memory copy: every entry of slot `s` gets value `v` -/
-def setVal (f : File) (s : Slot) (v : Val) : File :=
-  f.map (fun e => if e.1 = s then (s, v) else e)
-
-structure Call where
-  slot : Slot
-  val : Val
+structure Call (κ ν : Type) where
+  slot : κ
+  val : ν
   canCreate : Bool
   canUpdate : Bool
 deriving DecidableEq, Repr
@@ -50,9 +52,21 @@ deriving DecidableEq, Repr
 inductive Outcome | passed | added | updated | failed
 deriving DecidableEq, Repr
 
+section Spec
+variable {κ ν : Type} [DecidableEq κ] [DecidableEq ν]
+
+/-- first entry with this slot (what `getPrevSnapshot`'s scan returns) -/
+def lookup : File κ ν → κ → Option ν
+  | [], _ => none
+  | (s', v) :: f, s => if s' = s then some v else lookup f s
+
+/-- `updateSnapshot`'s rewrite of an in-memory copy: every entry of slot `s` gets value `v` -/
+def setVal (f : File κ ν) (s : κ) (v : ν) : File κ ν :=
+  f.map (fun e => if e.1 = s then (s, v) else e)
+
 /-- the write phase of a call as ONE atomic action, given what its read phase saw
 (the serial specification of a call) -/
-def writePhase (f : File) (c : Call) (r : Option Val) : File × Outcome :=
+def writePhase (f : File κ ν) (c : Call κ ν) (r : Option ν) : File κ ν × Outcome :=
   match r with
   | none => if c.canCreate then (f ++ [(c.slot, c.val)], .added) else (f, .failed)
   | some v0 =>
@@ -60,22 +74,24 @@ def writePhase (f : File) (c : Call) (r : Option Val) : File × Outcome :=
     else if c.canUpdate then (setVal f c.slot c.val, .updated) else (f, .failed)
 
 /-- what the slot holds after the call, as a function of what it held before -/
-def after (c : Call) (r : Option Val) : Option Val :=
+def after (c : Call κ ν) (r : Option ν) : Option ν :=
   match r with
   | none => if c.canCreate then some c.val else none
   | some v0 => if v0 = c.val then some v0 else if c.canUpdate then some c.val else some v0
 
 /-- serial reference for one thread: its outcomes as a function of the content of its slots -/
-def serialOuts (look : Slot → Option Val) : List Call → List Outcome
+def serialOuts (look : κ → Option ν) : List (Call κ ν) → List Outcome
   | [] => []
   | c :: cs =>
     (writePhase [] c (look c.slot)).2 ::
       serialOuts (fun s => if s = c.slot then after c (look c.slot) else look s) cs
 
 /-- serial reference: what slot `s` holds after running `prog` alone, if it held `r` before -/
-def serialFinal : List Call → Slot → Option Val → Option Val
+def serialFinal : List (Call κ ν) → κ → Option ν → Option ν
   | [], _, r => r
   | c :: cs, s, r => serialFinal cs s (if c.slot = s then after c r else r)
+
+end Spec
 
 /-! ## The three facts about the source -/
 
@@ -100,19 +116,38 @@ def pinnedLocks : Locks :=
 /-- all three functions are properly locked in the extracted tree -/
 def allLocked : Bool := pinnedLocks.add && pinnedLocks.upd && pinnedLocks.read
 
-/-! ## Threads and the global state -/
+/-! ## File operations, threads and the global state -/
+
+/-- the four operations the protocol performs on a file of representation `F` -/
+structure FileOps (F κ ν : Type) where
+  /-- `getPrevSnapshot` -/
+  lookup : F → κ → Option ν
+  /-- `addNewSnapshot`: one `O_APPEND` write -/
+  add : F → κ → ν → F
+  /-- the buffer `updateSnapshot` builds from its in-memory copy -/
+  set : F → κ → ν → F
+  /-- the file after `Truncate(0)` -/
+  empty : F
+
+/-- the operations on the abstract file -/
+def absOps {κ ν : Type} [DecidableEq κ] : FileOps (File κ ν) κ ν where
+  lookup := lookup
+  add := fun f s v => f ++ [(s, v)]
+  set := setVal
+  empty := []
 
 /-- where a thread is inside its current call -/
-inductive PC
+inductive PC (F : Type)
   | idle                 -- about to READ
   | wantAdd              -- read said "not found", about to ADD
   | wantUpd              -- read said "different", about to `upd1`
-  | inUpd (snap : File)  -- between `upd1` and `upd2`, holding the in-memory copy
+  | inUpd (snap : F)     -- after `upd1`, holding the in-memory copy, about to truncate
+  | inWrite (snap : F)   -- after `upd2a` (file truncated), about to write back
 deriving DecidableEq, Repr
 
-structure TState where
-  todo : List Call
-  pc : PC
+structure TState (F κ ν : Type) where
+  todo : List (Call κ ν)
+  pc : PC F
   outs : List Outcome
 deriving DecidableEq, Repr
 
@@ -138,39 +173,43 @@ def Counters.get (k : Counters) : Outcome → Nat
 
 def Counters.total (k : Counters) : Nat := k.passed + k.added + k.updated + k.failed
 
-structure State where
-  file : File
+structure State (F κ ν : Type) where
+  file : F
   /-- who holds the write lock -/
   holder : Option Nat
-  ts : List TState
+  ts : List (TState F κ ν)
   cnt : Counters
 deriving DecidableEq, Repr
 
+section Step
+variable {F κ ν : Type}
+
 /-- the current call is over with outcome `o` -/
-def finish (t : TState) (cs : List Call) (o : Outcome) : TState :=
+def finish (t : TState F κ ν) (cs : List (Call κ ν)) (o : Outcome) : TState F κ ν :=
   { todo := cs, pc := .idle, outs := t.outs ++ [o] }
 
 /-- thread `i` completes its current call: new file, new lock holder, outcome, counter bump -/
-def State.emit (σ : State) (i : Nat) (t : TState) (cs : List Call) (o : Outcome)
-    (f' : File) (h' : Option Nat) : State :=
+def State.emit (σ : State F κ ν) (i : Nat) (t : TState F κ ν) (cs : List (Call κ ν))
+    (o : Outcome) (f' : F) (h' : Option Nat) : State F κ ν :=
   { file := f', holder := h', ts := σ.ts.set i (finish t cs o), cnt := σ.cnt.bump o }
 
 /-- thread `i` moves on inside its current call -/
-def State.setPc (σ : State) (i : Nat) (t : TState) (pc : PC) : State :=
+def State.setPc (σ : State F κ ν) (i : Nat) (t : TState F κ ν) (pc : PC F) : State F κ ν :=
   { σ with ts := σ.ts.set i { t with pc := pc } }
 
 /-- an operation which takes the mutex (`locked`) cannot run while somebody holds W -/
-def blocked (locked : Bool) (σ : State) : Bool := locked && σ.holder.isSome
+def blocked (locked : Bool) (σ : State F κ ν) : Bool := locked && σ.holder.isSome
 
 /-- one step of thread `i` whose local state is `t` -/
-def stepT (L : Locks) (σ : State) (i : Nat) (t : TState) : State :=
+def gstepT [DecidableEq ν] (ops : FileOps F κ ν) (L : Locks) (σ : State F κ ν) (i : Nat)
+    (t : TState F κ ν) : State F κ ν :=
   match t.todo with
   | [] => σ
   | c :: cs =>
     match t.pc with
     | .idle =>
       if blocked L.read σ then σ else
-      match lookup σ.file c.slot with
+      match ops.lookup σ.file c.slot with
       | none =>
         if c.canCreate then σ.setPc i t .wantAdd else σ.emit i t cs .failed σ.file σ.holder
       | some v0 =>
@@ -179,52 +218,75 @@ def stepT (L : Locks) (σ : State) (i : Nat) (t : TState) : State :=
         else σ.emit i t cs .failed σ.file σ.holder
     | .wantAdd =>
       if blocked L.add σ then σ
-      else σ.emit i t cs .added (σ.file ++ [(c.slot, c.val)]) σ.holder
+      else σ.emit i t cs .added (ops.add σ.file c.slot c.val) σ.holder
     | .wantUpd =>
       if blocked L.upd σ then σ
       else { σ with holder := if L.upd then some i else σ.holder,
                     ts := σ.ts.set i { t with pc := .inUpd σ.file } }
     | .inUpd snap =>
-      σ.emit i t cs .updated (setVal snap c.slot c.val) (if L.upd then none else σ.holder)
+      { σ with file := ops.empty, ts := σ.ts.set i { t with pc := .inWrite snap } }
+    | .inWrite snap =>
+      σ.emit i t cs .updated (ops.set snap c.slot c.val) (if L.upd then none else σ.holder)
 
 /-- global step: thread number `i` moves (out of range / finished / blocked = stutter) -/
-def step (L : Locks) (σ : State) (i : Nat) : State :=
+def gstep [DecidableEq ν] (ops : FileOps F κ ν) (L : Locks) (σ : State F κ ν) (i : Nat) :
+    State F κ ν :=
   match σ.ts[i]? with
   | none => σ
-  | some t => stepT L σ i t
+  | some t => gstepT ops L σ i t
 
-def run (L : Locks) (σ : State) : List Nat → State
+def grun [DecidableEq ν] (ops : FileOps F κ ν) (L : Locks) (σ : State F κ ν) :
+    List Nat → State F κ ν
   | [] => σ
-  | i :: sch => run L (step L σ i) sch
+  | i :: sch => grun ops L (gstep ops L σ i) sch
 
-def initT (p : List Call) : TState := { todo := p, pc := .idle, outs := [] }
+def initT (p : List (Call κ ν)) : TState F κ ν := { todo := p, pc := .idle, outs := [] }
 
-def init (f₀ : File) (progs : List (List Call)) : State :=
+def init (f₀ : F) (progs : List (List (Call κ ν))) : State F κ ν :=
   { file := f₀, holder := none, ts := progs.map initT, cnt := {} }
 
 /-- every thread has completed all its calls -/
-def AllDone (σ : State) : Prop := ∀ t ∈ σ.ts, t.todo = []
+def AllDone (σ : State F κ ν) : Prop := ∀ t ∈ σ.ts, t.todo = []
 
-instance (σ : State) : Decidable (AllDone σ) := by unfold AllDone; infer_instance
+instance (σ : State F κ ν) : Decidable (AllDone σ) := by unfold AllDone; infer_instance
+
+end Step
+
+/-! ## The abstract instance -/
+
+abbrev ATState (κ ν : Type) := TState (File κ ν) κ ν
+abbrev AState (κ ν : Type) := State (File κ ν) κ ν
+
+section Abs
+variable {κ ν : Type} [DecidableEq κ] [DecidableEq ν]
+
+def stepT (L : Locks) (σ : AState κ ν) (i : Nat) (t : ATState κ ν) : AState κ ν :=
+  gstepT absOps L σ i t
+
+def step (L : Locks) (σ : AState κ ν) (i : Nat) : AState κ ν := gstep absOps L σ i
+
+def run (L : Locks) (σ : AState κ ν) (sch : List Nat) : AState κ ν := grun absOps L σ sch
 
 /-- Entry point for the replay harness: final file and per-thread outcome lists. -/
-def runSchedule (addLocked updLocked readLocked : Bool) (f₀ : File) (progs : List (List Call))
-    (sch : List Nat) : File × List (List Outcome) :=
+def runSchedule (addLocked updLocked readLocked : Bool) (f₀ : File κ ν)
+    (progs : List (List (Call κ ν))) (sch : List Nat) : File κ ν × List (List Outcome) :=
   let σ := run { add := addLocked, upd := updLocked, read := readLocked } (init f₀ progs) sch
   (σ.file, σ.ts.map (·.outs))
 
 /-- threads have pairwise disjoint slot sets (distinct tests ⇒ distinct snapshot ids) -/
-def Disj (progs : List (List Call)) : Prop :=
+def Disj (progs : List (List (Call κ ν))) : Prop :=
   progs.Pairwise (fun p q => ∀ c ∈ p, ∀ d ∈ q, c.slot ≠ d.slot)
 
-instance (progs : List (List Call)) : Decidable (Disj progs) := by unfold Disj; infer_instance
+instance (progs : List (List (Call κ ν))) : Decidable (Disj progs) := by
+  unfold Disj; infer_instance
 
 /-- "none lost, duplicated, or overwritten by a stale copy": the final file, slot by slot, is
 what the owners' serial runs leave; initial entries keep their order, new ones are appended. -/
-structure FinalOK (f₀ : File) (progs : List (List Call)) (final : File) : Prop where
+structure FinalOK (f₀ : File κ ν) (progs : List (List (Call κ ν))) (final : File κ ν) :
+    Prop where
   /-- a slot holds what its owner's serial run leaves in it -/
-  owned : ∀ (i : Nat) (p : List Call) (s : Slot), progs[i]? = some p → (∃ c ∈ p, c.slot = s) →
-    lookup final s = serialFinal p s (lookup f₀ s)
+  owned : ∀ (i : Nat) (p : List (Call κ ν)) (s : κ), progs[i]? = some p →
+    (∃ c ∈ p, c.slot = s) → lookup final s = serialFinal p s (lookup f₀ s)
   /-- slots nobody owns are untouched -/
   unowned : ∀ s, (∀ p ∈ progs, ∀ c ∈ p, c.slot ≠ s) → lookup final s = lookup f₀ s
   /-- the initial entries keep their places; behind them come the added slots, each once, each
@@ -233,5 +295,7 @@ structure FinalOK (f₀ : File) (progs : List (List Call)) (final : File) : Prop
     ∀ s ∈ added, s ∉ f₀.map Prod.fst ∧ ∃ p ∈ progs, ∃ c ∈ p, c.slot = s ∧ c.canCreate = true
   /-- no duplicated slot -/
   nodup : (f₀.map Prod.fst).Nodup → (final.map Prod.fst).Nodup
+
+end Abs
 
 end GoSnaps.Conc
